@@ -835,7 +835,11 @@ func (e *encoderBincBytes) kMapCanonical(ti *typeInfo, rv, rvv reflect.Value, ke
 			for i := range mksv {
 				e.c = containerMapKey
 				e.e.WriteMapElemKey(i == 0)
-				e.e.EncodeTime(mksv[i].v)
+				if e.h.timeBuiltin {
+					e.e.EncodeTime(mksv[i].v)
+				} else {
+					e.encodeValue(mksv[i].r, keyFn)
+				}
 				e.mapElemValue()
 				e.encodeValue(mapGet(rv, mksv[i].r, rvv, mparams), valFn)
 			}
@@ -998,7 +1002,11 @@ func (e *encoderBincBytes) encodeBuiltin(iv interface{}) (ok bool) {
 	case complex128:
 		e.encodeComplex128(v)
 	case time.Time:
-		e.e.EncodeTime(v)
+		if e.h.timeBuiltin {
+			e.e.EncodeTime(v)
+		} else {
+			e.encodeR(reflect.ValueOf(v))
+		}
 	case []byte:
 		e.e.EncodeBytes(v)
 	default:
@@ -2692,7 +2700,11 @@ func (d *decoderBincBytes) decode(iv interface{}) {
 
 		d.decodeBytesInto(v[:len(v):len(v)], true)
 	case *time.Time:
-		*v = d.d.DecodeTime()
+		if d.h.timeBuiltin {
+			*v = d.d.DecodeTime()
+		} else {
+			d.decodeValue(reflect.ValueOf(v), nil)
+		}
 	case *Raw:
 		*v = d.rawBytes()
 
@@ -4951,7 +4963,11 @@ func (e *encoderBincIO) kMapCanonical(ti *typeInfo, rv, rvv reflect.Value, keyFn
 			for i := range mksv {
 				e.c = containerMapKey
 				e.e.WriteMapElemKey(i == 0)
-				e.e.EncodeTime(mksv[i].v)
+				if e.h.timeBuiltin {
+					e.e.EncodeTime(mksv[i].v)
+				} else {
+					e.encodeValue(mksv[i].r, keyFn)
+				}
 				e.mapElemValue()
 				e.encodeValue(mapGet(rv, mksv[i].r, rvv, mparams), valFn)
 			}
@@ -5114,7 +5130,11 @@ func (e *encoderBincIO) encodeBuiltin(iv interface{}) (ok bool) {
 	case complex128:
 		e.encodeComplex128(v)
 	case time.Time:
-		e.e.EncodeTime(v)
+		if e.h.timeBuiltin {
+			e.e.EncodeTime(v)
+		} else {
+			e.encodeR(reflect.ValueOf(v))
+		}
 	case []byte:
 		e.e.EncodeBytes(v)
 	default:
@@ -6808,7 +6828,11 @@ func (d *decoderBincIO) decode(iv interface{}) {
 
 		d.decodeBytesInto(v[:len(v):len(v)], true)
 	case *time.Time:
-		*v = d.d.DecodeTime()
+		if d.h.timeBuiltin {
+			*v = d.d.DecodeTime()
+		} else {
+			d.decodeValue(reflect.ValueOf(v), nil)
+		}
 	case *Raw:
 		*v = d.rawBytes()
 
